@@ -1,5 +1,5 @@
 import CwPlus.Model.Cw20
-import CwPlus.Lemmas.Cw20Allow
+import CwPlus.Lemmas.Cw20Draw
 /-!
 # C02 — cw20: balances move only by the holder or within a valid allowance
 
